@@ -323,11 +323,53 @@ func runC16(cs CaseSpec) *CaseResult {
 		return nil
 	}
 
+	// Look-ups of items that do not exist yet (the node itself asks for an
+	// event by hash and by creator/index before it has it: parent checks, wire
+	// decoding). They must fail, and must not stand in the way of reading the
+	// item once it has been written and has left the in-memory window. Sparse,
+	// so that few other misses lie between the miss and the later read.
+	type negKey struct {
+		c    string
+		i    int
+		hash string
+	}
+	var negLooked []negKey
+	negEvery := 3*d.N + 1
+	recheckNeg := func(phase string) *CaseResult {
+		for _, k := range negLooked {
+			if _, ok := m.events[k.hash]; !ok {
+				continue
+			}
+			res.count("store_reads_of_items_looked_up_before_they_existed", 1)
+			if got, err := st.GetEvent(k.hash); err != nil || got == nil {
+				return fail("C16:stored-event-unreadable", fmt.Sprintf("%s: GetEvent(%s) fails (%v); the event had been asked for before it was written", phase, k.hash[:12], err))
+			}
+			one, err := st.ParticipantEvent(k.c, k.i)
+			if err != nil || one != k.hash {
+				return fail("C16:listing-item", fmt.Sprintf("%s: ParticipantEvent(%s, %d) = %q (%v), stored %s; the position had been asked for before the event was written", phase, k.c[:10], k.i, trunc(one, 12), err, k.hash[:12]))
+			}
+		}
+		return nil
+	}
+
 	for i, op := range ops {
 		res.Evaluations++
 		switch op.kind {
 		case "event":
 			ev := evFromDB(op.ev)
+			if _, seen := m.events[op.hash]; !seen && rng.Intn(negEvery) == 0 {
+				res.count("store_lookups_of_items_that_do_not_exist_yet", 1)
+				if got, err := st.GetEvent(op.hash); err == nil && got != nil {
+					return fail("C16:absent-item-read-as-present", fmt.Sprintf("GetEvent(%s) succeeds before the event was ever written", op.hash[:12]))
+				}
+				if one, err := st.ParticipantEvent(ev.Creator(), ev.Index()); err == nil && one != "" {
+					return fail("C16:absent-item-read-as-present", fmt.Sprintf("ParticipantEvent(%s, %d) = %s before an event with that index was ever written", ev.Creator()[:10], ev.Index(), trunc(one, 12)))
+				}
+				negLooked = append(negLooked, negKey{ev.Creator(), ev.Index(), op.hash})
+				if len(negLooked) > 200 {
+					negLooked = negLooked[1:]
+				}
+			}
 			err := st.SetEvent(ev)
 			if err != nil {
 				res.count("store_writes_refused_by_cache_layer", 1)
@@ -383,6 +425,11 @@ func runC16(cs CaseSpec) *CaseResult {
 				return r
 			}
 		}
+		if i%29 == 28 {
+			if r := recheckNeg(fmt.Sprintf("after %d writes", i+1)); r != nil {
+				return r
+			}
+		}
 		if reopenAt[i] {
 			if r := checkReads(fmt.Sprintf("before close at write %d", i+1), true); r != nil {
 				return r
@@ -404,6 +451,9 @@ func runC16(cs CaseSpec) *CaseResult {
 		}
 	}
 	if r := checkReads("end of run", true); r != nil {
+		return r
+	}
+	if r := recheckNeg("end of run"); r != nil {
 		return r
 	}
 	// roots written by a reset from a frame (fast-sync), then a later validator
